@@ -21,8 +21,8 @@ func init() { Registry["C19"] = C19 }
 // docStyle renders one setting line in a comment style; isSetting tells whether the line is a setting
 // according to the property (trimmed text starts with "goverter:").
 type docLine struct {
-	text      string // complete comment line(s) incl. newline
-	setting   string // expected raw line (after "goverter:"), "" if none
+	text    string // complete comment line(s) incl. newline
+	setting string // expected raw line (after "goverter:"), "" if none
 }
 
 func styleLine(r *rand.Rand, s string) docLine {
@@ -471,17 +471,17 @@ func keysOfRaw(m map[string]rawConv) []string {
 // c19WrongKind: a marker on the wrong kind of declaration is an error.
 func c19WrongKind(e *core.Env, rep *core.Report, bin, root string) {
 	cases := map[string]string{
-		"conv_on_var":      "// goverter:converter\nvar X = 1\n",
-		"conv_on_const":    "// goverter:converter\nconst X = 1\n",
-		"conv_on_struct":   "// goverter:converter\ntype X struct{}\n",
-		"conv_on_alias":    "// goverter:converter\ntype X = int\n",
-		"vars_on_type":     "// goverter:variables\ntype X interface{ M(int) int }\n",
-		"vars_on_const":    "// goverter:variables\nconst X = 1\n",
-		"conv_on_group2":   "// goverter:converter\ntype (\n\tA interface{ M(int) int }\n\tB interface{ N(int) int }\n)\n",
-		"vars_non_func":    "// goverter:variables\nvar (\n\tX int\n)\n",
-		"conv_on_func":     "// goverter:converter\nfunc F(a int) int { return a }\n",
-		"vars_on_func":     "// goverter:variables\nfunc F(a int) int { return a }\n",
-		"conv_on_import":   "// goverter:converter\nimport \"fmt\"\n\nvar _ = fmt.Sprint\n",
+		"conv_on_var":    "// goverter:converter\nvar X = 1\n",
+		"conv_on_const":  "// goverter:converter\nconst X = 1\n",
+		"conv_on_struct": "// goverter:converter\ntype X struct{}\n",
+		"conv_on_alias":  "// goverter:converter\ntype X = int\n",
+		"vars_on_type":   "// goverter:variables\ntype X interface{ M(int) int }\n",
+		"vars_on_const":  "// goverter:variables\nconst X = 1\n",
+		"conv_on_group2": "// goverter:converter\ntype (\n\tA interface{ M(int) int }\n\tB interface{ N(int) int }\n)\n",
+		"vars_non_func":  "// goverter:variables\nvar (\n\tX int\n)\n",
+		"conv_on_func":   "// goverter:converter\nfunc F(a int) int { return a }\n",
+		"vars_on_func":   "// goverter:variables\nfunc F(a int) int { return a }\n",
+		"conv_on_import": "// goverter:converter\nimport \"fmt\"\n\nvar _ = fmt.Sprint\n",
 	}
 	var names []string
 	for n := range cases {
